@@ -419,22 +419,31 @@ def run(ctx):
                 all_issues.append(it)
             if g is not None and not name.endswith(".json"):
                 model_jobs.append((name, g, ri, p, d, ops, rr))
-    if ctx.tier == "quick":
-        # the model replay costs ~0.5 s of Coq elaboration per geometry: sample
-        keep, seen_g = [], []
-        for job in model_jobs:
-            nm = job[0]
-            if nm not in seen_g:
-                seen_g.append(nm)
-            gi = seen_g.index(nm)
-            if nm.startswith("corpus") or (gi % 2 == 0 and job[2] < 4):
-                keep.append(job)
-        model_jobs = keep
+    # the model replay costs Coq elaboration + vm_compute time per ray: the Gallina
+    # model is compared on a sample of the generated geometries (every corpus
+    # scenario, every `stride`-th geometry, first 4-5 rays); the fresh-initialisation
+    # oracle above has already judged ALL rays
+    stride = 2 if ctx.tier == "quick" else 3
+    nray = 4 if ctx.tier == "quick" else 5
+    keep, seen_g = [], []
+    for job in model_jobs:
+        nm = job[0]
+        if nm not in seen_g:
+            seen_g.append(nm)
+        gi = seen_g.index(nm)
+        if nm.startswith("corpus") or (gi % stride == 0 and job[2] < nray):
+            keep.append(job)
+    ctx.log("model replay on %d of %d rays" % (len(keep), len(model_jobs)))
+    model_jobs = keep
     # ---- model correspondence
     n_model = 0
     ctx.log("oracle checks done: %d issues" % len(all_issues))
     if model_ok:
-        n_model = coqgeo.run_model_comparison(ctx, model_jobs, all_issues, DELTA)
+        try:
+            n_model = coqgeo.run_model_comparison(ctx, model_jobs, all_issues, DELTA)
+        except RuntimeError as e:
+            # coqc failed or timed out on a model replay file: the tie could not be established
+            raise vlib.BuildError("Gallina model replay failed", str(e)[-3000:])
     else:
         ctx.violation("model-broken", "the executable model coq/C03 no longer compiles",
                       getattr(ctx, "broken_proof", {}), no_input=True)
